@@ -174,7 +174,9 @@ namespace sim
 
 		int const port = host_end == std::string::npos || host_end <= 7 ? 80
 			: atoi(req.req.substr(host_end + 1, path_start).c_str());
-		assert(port >= 0 && port < 0xffff);
+		// a port that does not fit 16 bits names no endpoint: the request is
+		// malformed. It must not be truncated into some other, valid, port
+		if (port < 0 || port > 0xffff) throw std::runtime_error("invalid port");
 
 		bool found_host = false;
 		for (auto const& h : req.headers)
